@@ -16,6 +16,9 @@ type Profile struct {
 	Budget     map[int]int
 	ShardLevel int
 	Rule       string // how cases are enumerated (evidence)
+	// FreeRun: the same harness bodies are also run free (real goroutines, real
+	// channels) on the pristine build as a validation of the scheduler model.
+	FreeRun bool
 }
 
 // Spec describes the check of one property.
